@@ -464,7 +464,7 @@ pub fn workload(name: &str, tier: &str) -> Option<Box<dyn Workload>> {
             ("c04lsp", "asan") => Some(Box::new(c04::LspTyping { n: 100 })),
             ("c13", "asan") => Some(Box::new(c13::Workspaces { n: 500 })),
             ("c13", "strace") => Some(Box::new(c13::Workspaces { n: 500 })),
-            ("c15", "asan") => Some(Box::new(c15::Histories { n: 300, max_steps: 40 })),
+            ("c15", "asan") => Some(Box::new(c15::Histories { n: 300, max_steps: 40, located_only: None })),
             ("c18", "asan") => Some(Box::new(c18::Renames { n: 100 })),
             _ => None,
         };
@@ -485,6 +485,17 @@ pub fn workload(name: &str, tier: &str) -> Option<Box<dyn Workload>> {
         "c15" => Some(Box::new(c15::Histories {
             n: if quick { 1000 } else { 20_000 },
             max_steps: if quick { 25 } else { 60 },
+            located_only: None,
+        })),
+        "c15loc-c10" | "c15loc-c11" | "c15loc-c13" | "c15loc-c16" => Some(Box::new(c15::Histories {
+            n: if quick { 400 } else { 8000 },
+            max_steps: if quick { 25 } else { 60 },
+            located_only: Some(match name {
+                "c15loc-c10" => "C10",
+                "c15loc-c11" => "C11",
+                "c15loc-c13" => "C13",
+                _ => "C16",
+            }),
         })),
         "c14" => Some(Box::new(c14::Bases {
             n: if quick { 10_000 } else { 100_000 },
